@@ -1004,9 +1004,10 @@ def gen_iapply(rng, idx):
     p0 = (idx // 4) % 2
     layers = []
     for q in range(n_layers):
-        m = meths[(idx + q) % 3]
-        if m['method'] == 'variational' and q == 0:
-            m = meths[0]                    # (variational compression started from a product state: known finding F113)
+        # first layer on the product state: SVD compression is exact (disjoint gates); later layers: MPS.compress_svd of an infinite MPS is a
+        # single sweep of local SVDs around guessed singular values (documented: only for MPOs close to the identity), so exactness is
+        # required of apply_naively + canonical_form and of the variational compression only
+        m = meths[0] if q == 0 else meths[1 + (idx + q) % 2]
         layers.append([round(rng.uniform(0.3, 1.2), 3), (p0 + q) % 2, m])
     return {'kind': 'ext', 'sub': 'iapply', 'site': {'type': 'SpinHalf', 'conserve': conserve}, 'L': 2, 'seed': 51000 + idx, 'psi_L': rng.choice([2, 4]),
             'state': {'charged': conserve is not None}, 'layers': layers, 'obs': ['Sz'] if conserve else ['Sz', 'Sx', 'Sy']}
